@@ -66,7 +66,7 @@ def r1_strip_attrs_docs(toks, log, where):
             if j < len(toks) and toks[j].text == "[":
                 e = match_close(toks, j)
                 txt = untok(toks[k:e + 1])
-                if re.match(r"#\[\s*(inline|allow|derive|doc|must_use|cold|deny|warn|cfg_attr|serde|default)\b", txt):
+                if re.match(r"#\[\s*(inline|allow|derive|doc|must_use|cold|deny|warn|cfg_attr|serde|default|repr)\b", txt):
                     if re.match(r"#\[\s*derive\b", txt) and re.search(r"\bCopy\b", txt):
                         log.append(("R1", where, txt.strip()[:80], "#[derive(Clone, Copy)]"))
                         out.extend(syn("#[derive(Clone, Copy)]"))
